@@ -8,7 +8,10 @@ Driver handler for C10 (tsquery is type-sound).  Case grammar and observation fo
            no record pulled during Execute; unique non-empty URNs, valid types; every row has one cell per field,
            nil only under a not-required field, dynamic Go type = declared type; strictly increasing timestamps;
            and a query the reference type checker rejects must have been rejected.
-  X cases (filters NOT in the model): model = the observation; only the spec predicate is evaluated.
+  The stream filters (aligner of both packages with/without fill mode, delta, rate; fixed alignment periods) are
+  ordinary `q` cases since they are part of the model (`RDs.xfiltered` / `DDs.xfiltered`, chains via `chainR`/`chainD`).
+  X cases (outside the model: aligner filters over CALENDAR alignment periods): model = the observation; only the
+  spec predicate is evaluated.
 -/
 namespace ShpanVerif.Drive.C10
 open ShpanVerif.Util ShpanVerif.Model.Query ShpanVerif.Drive.QueryIO
@@ -91,6 +94,46 @@ def tblModel (ws : List String) : Option String :=
     pure s!"ok valid={boolStr dt.valid} numeric={boolStr dt.isNumeric}"
   | _ => none
 
+/-! ### the documented typing rules of the stream filters, checked independently of the operational model:
+the metadata of the filter's INPUT comes from the reference type checker of C11 (Model/QueryRef.lean, `semR`/`semD`,
+available when the sub-tree has a reference semantics); the rule itself is the documented one — aligner: numeric
+fields only; delta / rate: a numeric and required field.  `true` = some stream filter of the tree is applied to a
+well-typed input it must refuse, hence the whole query must be rejected. -/
+def badForAlign (fms : List FieldMeta) : Bool := fms.any fun m => !m.dt.isNumeric
+def badForDelta (fms : List FieldMeta) : Bool := fms.any fun m => !m.dt.isNumeric || !m.required
+
+mutual
+  def xMustRejectR (f t : Int) : RDs Float → Bool
+    | .static _ _ => false
+    | .filtered ds _ => xMustRejectR f t ds
+    | .xfiltered ds _ =>
+      xMustRejectR f t ds ||
+        (!Ref.hasReductionR ds && match Ref.semR O false f t ds with
+          | some (fms, _) => badForAlign fms
+          | none => false)
+    | .join _ srcs => xMustRejectRL f t srcs
+    | .fromDs d => xMustRejectD f t d
+  def xMustRejectRL (f t : Int) : RDsL Float → Bool
+    | .nil => false
+    | .cons d l => xMustRejectR f t d || xMustRejectRL f t l
+  def xMustRejectD (f t : Int) : DDs Float → Bool
+    | .static _ _ => false
+    | .filtered d _ => xMustRejectD f t d
+    | .xfiltered d x =>
+      xMustRejectD f t d ||
+        (!Ref.hasReductionD d && match Ref.semD O false f t d with
+          | some (fms, _) => (match x with
+              | .align _ _ => badForAlign fms
+              | .delta _ _ => badForDelta fms
+              | .rate _ _ _ _ => badForDelta fms)
+          | none => false)
+    | .reduction _ _ _ _ srcs => xMustRejectDL f t srcs
+    | .fromReport r _ => xMustRejectR f t r
+  def xMustRejectDL (f t : Int) : DDsL Float → Bool
+    | .nil => false
+    | .cons d l => xMustRejectD f t d || xMustRejectDL f t l
+end
+
 /-- returns (model output, spec verdict on the observation, reason) -/
 def handle (c obs : String) : String × Bool × String :=
   match words c with
@@ -99,8 +142,8 @@ def handle (c obs : String) : String × Bool × String :=
     | some m => (m, true, "")
     | none => ("bad-case", false, "unparsable tbl case")
   | "X" :: _ =>
-    -- spec-only cases (filters outside the model: stand-alone aligners, delta, rate): only the property's clauses
-    -- are evaluated on the observation of the real code; the observation itself is returned as the model text
+    -- spec-only cases (outside the model: aligner filters over calendar alignment periods): only the property's
+    -- clauses are evaluated on the observation of the real code; the observation itself is returned as the model text
     match parseObs obs with
     | none => (obs, false, "spec-only: observation not in the protocol format (plan-time panic or malformed)")
     | some o =>
@@ -110,19 +153,19 @@ def handle (c obs : String) : String × Bool × String :=
     match parseQCase c with
     | none => ("bad-case", false, "unparsable case")
     | some qc =>
-      let (model, inputsOk, refRejects) : String × Bool × Bool :=
+      let (model, inputsOk, refRejects, xRejects) : String × Bool × Bool × Bool :=
         match qc with
         | .rep mask f t q =>
           ((match inputErrR q with
               | some e => rejectStr e
               | none => fmtRResult mask (execR O false f t q)), inputsOkR q,
-            !Ref.hasReductionR q && (Ref.semR O false f t q).isNone)
+            !Ref.hasReductionR q && (Ref.semR O false f t q).isNone, xMustRejectR f t q)
         | .ds mask f t q =>
           ((match inputErrD q with
               | some e => rejectStr e
               | none => fmtDResult mask (execD O false f t q)), inputsOkD q,
-            !Ref.hasReductionD q && (Ref.semD O false f t q).isNone)
-        | .tw .. => ("bad-case", false, false)
+            !Ref.hasReductionD q && (Ref.semD O false f t q).isNone, xMustRejectD f t q)
+        | .tw .. => ("bad-case", false, false, false)
       if !inputsOk then (model, true, "inputs not schema-conforming: property does not apply")
       else match parseObs obs with
         | none => (model, false, "observation not in the protocol format (plan-time panic or malformed)")
@@ -130,6 +173,8 @@ def handle (c obs : String) : String × Bool × String :=
           let (ok, why) := soundObs o
           if !ok then (model, false, why)
           else if refRejects && o.reject.isNone then (model, false, "ill-typed query (reference type checker) was not rejected")
+          else if xRejects && o.reject.isNone then
+            (model, false, "a stream filter over an unsuitable field (aligner: non-numeric; delta/rate: non-numeric or optional) was not rejected")
           else (model, true, "")
 
 end ShpanVerif.Drive.C10
